@@ -372,6 +372,11 @@ class CookieJar(AbstractCookieJar):
                 # Setting cookies for different domains is not allowed
                 continue
 
+            if hostname and "." not in domain and domain != hostname:
+                # A single label (Domain=com) is a suffix shared by unrelated
+                # hosts, only that host itself may name it (RFC 6265 5.3 step 5)
+                continue
+
             path = cookie["path"]
             if not path or path[0] != "/":
                 # Set the cookie's path to the response path
